@@ -359,37 +359,33 @@ impl<R: Read, TSpec> TagIterator<R, TSpec>
         Ok((tag_id, spec_tag_type, size, header_len))
     }
 
-    #[inline(always)]
-    fn read_valid_tag_header(&mut self) -> Result<(u64, Option<TagDataType>, EBMLSize), TagIteratorError> {
-        let (tag_id, spec_tag_type, size, header_len) = self.peek_valid_tag_header()?;
-            
-        self.internal_buffer_position += header_len;
-        Ok((tag_id, spec_tag_type, size))
-    }
-
-    fn read_tag_data(&mut self, size: usize) -> Result<Option<&[u8]>, TagIteratorError> {
-        self.ensure_capacity(size);
-        if !self.ensure_data_read(size)? {
+    fn read_tag_data(&mut self, header_len: usize, size: usize) -> Result<Option<&[u8]>, TagIteratorError> {
+        // Make sure the whole element is buffered before any of it is consumed, so that reading can resume
+        // at this tag if the source is able to supply the missing data later on
+        self.ensure_capacity(header_len + size);
+        if !self.ensure_data_read(header_len + size)? {
             return Ok(None);
         }
 
-        self.internal_buffer_position += size;
+        self.internal_buffer_position += header_len + size;
         Ok(Some(&self.buffer[(self.internal_buffer_position-size)..self.internal_buffer_position]))
     }
 
     fn read_tag(&mut self) -> Result<ProcessingTag<TSpec>, TagIteratorError> {
         let tag_start = self.current_offset();
 
-        let (tag_id, spec_tag_type, size) = self.read_valid_tag_header()?;
+        let (tag_id, spec_tag_type, size, header_len) = self.peek_valid_tag_header()?;
 
-        let data_start = self.current_offset();
+        let data_start = tag_start + header_len;
         let raw_data = if matches!(spec_tag_type, Some(TagDataType::Master)) {
+            self.internal_buffer_position += header_len;
             &[]
         } else if let Known(size) = size {
-            if let Some(data) = self.read_tag_data(size)? {
+            if let Some(data) = self.read_tag_data(header_len, size)? {
                 data
             } else {
-                return Err(TagIteratorError::UnexpectedEOF { tag_start, tag_id: Some(tag_id), tag_size: Some(size), partial_data: Some(self.buffer[self.internal_buffer_position..self.buffered_byte_length].to_vec()) });
+                let available_from = (self.internal_buffer_position + header_len).min(self.buffered_byte_length);
+                return Err(TagIteratorError::UnexpectedEOF { tag_start, tag_id: Some(tag_id), tag_size: Some(size), partial_data: Some(self.buffer[available_from..self.buffered_byte_length].to_vec()) });
             }
         } else {
             return Err(TagIteratorError::CorruptedFileData(CorruptedFileError::InvalidTagData{ tag_id, position: tag_start }));
@@ -486,12 +482,12 @@ impl<R: Read, TSpec> TagIterator<R, TSpec>
     ///
     /// Replaces the `Master::Start` at the front of the emission queue (and everything up to its matching `Master::End`) with a single `Master::Full`.
     ///
-    /// Returns `false` if the end of the master has not been read yet and the source has no more data at the moment - the queue is left untouched so that buffering can continue later.
+    /// Returns `Ok(false)` if the end of the master has not been read yet and the source has no more data at the moment, and the error if the source ran dry in the middle of one of its children.  In both cases what has been buffered so far is kept so that buffering can continue later.
     ///
-    fn buffer_master(&mut self) -> bool {
+    fn buffer_master(&mut self) -> Result<bool, TagIteratorError> {
         let (tag_id, tag_start) = match self.emission_queue.front() {
             Some(Ok((tag, tag_start))) => (tag.get_id(), *tag_start),
-            _ => return true,
+            _ => return Ok(true),
         };
 
         // Masters can be nested in themselves, so count unmatched starts of the same id
@@ -502,7 +498,7 @@ impl<R: Read, TSpec> TagIterator<R, TSpec>
                 self.read_next();
 
                 if position >= self.emission_queue.len() {
-                    return false;
+                    return Ok(false);
                 }
             }
 
@@ -528,11 +524,16 @@ impl<R: Read, TSpec> TagIterator<R, TSpec>
             let children = self.emission_queue.drain(..=position).skip(1).take(position - 1).map(|c| c.unwrap().0).collect();
             let full_tag = Self::roll_up_children(tag_id, children);
             self.emission_queue.push_front(Ok((full_tag, tag_start)));
+        } else if matches!(self.emission_queue[position], Err(TagIteratorError::UnexpectedEOF { .. })) {
+            // Nothing of the incomplete child has been consumed, so reading can resume if the source supplies more data
+            if let Some(Err(err)) = self.emission_queue.remove(position) {
+                return Err(err);
+            }
         } else {
             // The master could not be read completely - only the error is emitted
             self.emission_queue.drain(..position);
         }
-        true
+        Ok(true)
     }
 
     fn roll_up_children(tag_id: u64, children: Vec<TSpec>) -> TSpec {
@@ -599,8 +600,12 @@ impl<R: Read, TSpec> Iterator for TagIterator<R, TSpec>
         if self.emission_queue.is_empty() {
             self.read_next();
         }
-        if matches!(self.emission_queue.front(), Some(Ok((tag, _))) if matches!(tag.as_master(), Some(Master::Start)) && self.tag_ids_to_buffer.contains(&tag.get_id())) && !self.buffer_master() {
-            return None;
+        if matches!(self.emission_queue.front(), Some(Ok((tag, _))) if matches!(tag.as_master(), Some(Master::Start)) && self.tag_ids_to_buffer.contains(&tag.get_id())) {
+            match self.buffer_master() {
+                Ok(true) => {},
+                Ok(false) => return None,
+                Err(err) => return Some(Err(err)),
+            }
         }
         let next_item = self.emission_queue.pop_front();
         if let Some(Ok(ref tuple)) = next_item {
